@@ -642,6 +642,7 @@ func (w *worldA) tweak(r *simrt.Rand, s *AScenario, end int) {
 		if r.Bool(25) {
 			restarts(1)
 		}
+		s.Out2 = r.Bool(35) // queued chunks of every output have to be taken over
 	case "c18":
 		s.Events = nil
 		restarts(1 + r.Intn(3))
@@ -1044,7 +1045,7 @@ func (r *aRun) drive() {
 	if s.Out2 {
 		r.fs.MkdirAllRaw(aBufRoot2)
 		r.srv2 = newAServer(r)
-		r.srv2.addr, r.srv2.healthyOnly, r.srv2.name = aUpstreamAddr2, s.Profile != "c01two" && s.Profile != "c18", "fluentd2"
+		r.srv2.addr, r.srv2.healthyOnly, r.srv2.name = aUpstreamAddr2, s.Profile != "c01two" && s.Profile != "c18" && s.Profile != "c17a", "fluentd2"
 		r.srv2.start()
 	}
 	if !r.startAgent() {
